@@ -231,4 +231,25 @@ def rule_evicted_release(prog):
                  "the loop at line %s that releases the keys of an evicted macro can be left before all remaining events were looked at: "
                  "a Release that follows a later Press/Tap is never applied, the key the macro was holding stays pressed"
                  % (ex[0][0] if ex else "?"))
+    # ... and every Release among them is applied: no path round the loop from the Release arm avoids the retain
+    from kq.analysis import discr_switches
+    from rules.r_loopvar import loops_of
+    done = False
+    for lp in loops_of(f):
+        for sw in discr_switches(prog, f):
+            if sw.bb not in lp.body or not (sw.adt or "").endswith("SequenceEvent") or "Release" not in sw.arms:
+                continue
+            rets = [b for b in lp.body if f.term(b)["k"] == "call" and (callee_name(f.term(b)) or "").split("::")[-1] in ("retain", "retain_mut")]
+            tgt = sw.arms["Release"]
+            ok2 = bool(rets) and (tgt in rets or lp.h not in f.reach_from(tgt, avoid=rets))
+            done = True
+            res.inst("every-release-applied", where="%s:%s" % (f.file, f.line_of(sw.bb)), ok=ok2)
+            res.oblige(ok2)
+            if not ok2:
+                res.viol("every-release-applied", "%s:%s" % (f.file, f.line_of(sw.bb)),
+                         "in release_keys_of_evicted_sequence a remaining Release event can be passed over without releasing its key "
+                         "(a path from the Release arm back to the loop head avoids states.retain(seq_release)): the evicted macro never "
+                         "runs again, so a key it is holding at that moment stays down for ever")
+    if not done:
+        res.viol("every-release-applied/anchor", f.loc, "the match on SequenceEvent::Release inside the scan loop was not found")
     return res
